@@ -135,6 +135,11 @@ def run(ctx):
         ok = same_iteration_has(orw, bi, ii)
         ctx.ob('R06.4', f'on_remove_worker|{what}|old={vtxt}', ok,
                f're-dispatch site ({what}, old state {vtxt}) bumps the instance id in the same iteration', orw.loc(bi))
+        if what == 'ComputeTasks':
+            # the message carries task.instance_id: it has to be built after the bump
+            hs_ = loop_headers_containing(orw, bi)
+            ctx.ob('R06.4', f'on_remove_worker|{what}|old={vtxt}|bump before the message is built', bi not in orw.reach_from(hs_[:1] or [0], avoid=ii),
+                   'the ComputeTasks message for the new target is built after increment_instance_id (built before, it carries the id the lost worker may already have used)', orw.loc(bi))
 
     # ---- R06.5 restore plumbing
     rj = prog.body(HQ + 'restore::RestorerJob::restore_job')
@@ -233,6 +238,21 @@ def run(ctx):
     bad_ = [x for x in writes_state if x not in defs_i and not must_pass(lef_, [x], defs_i, exits=hs_[:1] + list(lef_.returns()))[0] and x in lef_.reach_from(hs_[:1] or [0], avoid=defs_i)]
     ctx.ob('R06.8', 'load_event_file|TaskStarted refreshes instance id on every path', not bad_,
            'a TaskStarted record always (re)defines the stored instance id (a branch that only updates the state keeps the id of the first start, so the next run reuses an id)', lef_.loc(bad_[0]) if bad_ else lef_.loc(sites_[0]))
+    # ---- R06.9 a worker that lost its server starts nothing new
+    ctx.rule('R06.9', 'worker end of life: finish_tasks_on_server_lost / cancel_running_tasks_on_worker_end drop the backlog of pre-sent tasks before their first await (a task started from the backlog after the server is gone is re-run by the restored server with the same instance id)')
+    WRPC = T + 'worker::rpc::'
+    for fn in ('finish_tasks_on_server_lost', 'cancel_running_tasks_on_worker_end'):
+        cbs = [prog.bodies[p_] for p_ in prog.with_closures(WRPC + fn) if prog.bodies[p_].kind == 'coroutine']
+        ctx.require(cbs, f'R06.9: coroutine of {fn}')
+        cb_ = cbs[0]
+        dr = cb_.call_blocks(WSTATE + 'drop_non_running_tasks')
+        ys = cb_.yields()
+        bad = [y for y in ys if y in cb_.reach_from([0], avoid=dr)]
+        ctx.ob('R06.9', f'{fn}|backlog dropped before waiting', bool(dr) and bool(ys) and not bad,
+               'drop_non_running_tasks() dominates every await of the function (while it waits, finishing tasks run prefill_loop, which starts backlog tasks)', cb_.loc(bad[0]) if bad else cb_.loc())
+    dnr = prog.body(WSTATE + 'drop_non_running_tasks')
+    ctx.ob('R06.9', 'drop_non_running_tasks|clears prefilled_tasks', any(fs and fs[-1][0] == 'prefilled_tasks' for bi, st, pl, fs in dnr.field_writes()), 'drop_non_running_tasks empties the backlog', dnr.loc())
+
     # ---- R06.6 worker side
     rt = prog.body(WSTATE + 'retract_tasks')
     # the pushed/collected ids are those for which remove from prefilled_tasks succeeded
